@@ -1,7 +1,13 @@
 // Copyright Amazon.com, Inc. or its affiliates. All Rights Reserved.
 // SPDX-License-Identifier: GPL-2.0-only
 
+#[cfg(clock_bound_verif)]
+use crate::verif::{mpsc::Receiver, spawn};
+#[cfg(clock_bound_verif)]
+use std::thread::panicking;
+#[cfg(not(clock_bound_verif))]
 use std::sync::mpsc::Receiver;
+#[cfg(not(clock_bound_verif))]
 use std::thread::{panicking, spawn};
 use tracing::{debug, error, info};
 
